@@ -69,6 +69,7 @@ static Json gen_c11(uint64_t seed, long i, std::vector<Format*> const& fmts)
     if (sk >= 8) { Json pat = Json::array(); int n = (int)r.range(1, 5); for (int k = 0; k < n; ++k) pat.push((int)r.pick({1, 2, 3, 5, 7, 13, 64, 1000})); p.set("pat", pat); }
     p.set("bufsz", r.pick({-1, -1, 0, 1, 7, 64, 512, 4096}));
     p.set("showmany", r.pick({0, 0, 1, -1}));
+    if (f->name == "png" && r.chance(1, 2)) p.set("meta", 1);
     // faults
     Bytes base;
     f->make(v.name, w, h, (uint64_t)p.num("cseed"), base);
@@ -147,7 +148,7 @@ static Json gen_c12(uint64_t seed, long i, std::vector<Format*> const& fmts)
     int w = (int)(r.chance(2, 3) ? r.range(1, 17) : r.range(1, 40)), h = (int)(r.chance(2, 3) ? r.range(1, 9) : r.range(1, 40));
     if (f->name == "tiff" && r.chance(1, 3)) { w = (int)r.pick({15, 16, 17, 31, 32, 33}); h = (int)r.pick({1, 15, 16, 17, 33}); }
     p.set("w", w); p.set("h", h); p.set("cseed", (long long)r.below(1u << 30));
-    p.set("content", f->name == "jpeg" ? (int)r.pick({1, 3}) : (int)r.pick({0, 0, 0, 1, 2}));
+    p.set("content", f->name == "jpeg" ? (int)r.pick({1, 3}) : (int)r.pick({0, 0, 0, 1, 2, 4, 4}));
     p.set("org", (int)r.pick({0, 0, 1, 1, 2, 3, 4}));
     if (r.chance(1, 3)) p.set("planar", 1);
     p.set("ox", (int)r.range(1, 9)); p.set("oy", (int)r.range(0, 3));
@@ -342,6 +343,7 @@ static RunResult run_c11(Json const& plan)
     ReadSpec s;
     s.entry = plan.str("entry", "read_image"); s.type = plan.str("type");
     s.dev = dev_from_json(plan);
+    s.meta = plan.num("meta") != 0;
     device_faults(s.dev, plan.at("ops"));
     long P_cap = (long)(g_new_cap);
     long decl = f->declared_pixels ? f->declared_pixels(bytes) : -1;
